@@ -102,6 +102,31 @@ class C07(Prop):
                             x0 = cand; ref = float(pr.value)
                 except Exception:  # noqa
                     pass
+                # polish: pick, among the candidates and their L-BFGS-B refinements, the point with the smallest Frank-Wolfe gap
+                # (the conic solver's own accuracy on the exponential cone is sometimes only ~1e-3 in the objective)
+                from scipy.optimize import minimize
+                lbv, ubv = np.asarray(sys["lb"], dtype=float), np.asarray(sys["ub"], dtype=float)
+                def nll(zv):
+                    pv = Ap @ zv + bp
+                    return float(np.sum(wv * (pv - b * np.log(pv)))) if np.all(pv > 0) else np.inf
+                def grad(zv):
+                    pv = Ap @ zv + bp
+                    return Ap.T @ (wv * (1 - b / pv))
+                def fwgap(zv):
+                    if not np.all(Ap @ zv + bp > 0):
+                        return np.inf
+                    gv = grad(zv)
+                    return float(gv @ zv - np.sum(np.minimum(gv * lbv, gv * ubv)))
+                cands = [x0, x]
+                for st in list(cands):
+                    try:
+                        r = minimize(nll, st, jac=grad, method="L-BFGS-B", bounds=list(zip(lbv, ubv)), options={"ftol": 1e-16, "gtol": 1e-13, "maxiter": 500})
+                        cands.append(np.clip(r.x, lbv, ubv))
+                    except Exception:  # noqa
+                        pass
+                x0 = min(cands, key=fwgap)
+                if np.isfinite(nll(x0)):
+                    ref = nll(x0) if ref is None else min(ref, nll(x0))
                 p["x0"] = x0; p["ref"] = ref; p["wv"] = wv
             if case["model"] == "excitation":
                 pred = Ap @ x + bp
